@@ -269,6 +269,10 @@ class DirectiveArgumentDefaultValueChange(SchemaChange):
         self.directive = directive
         self.old_argument = old_argument
         self.new_argument = new_argument
+        # Losing its default makes a non-null position required: operations
+        # that relied on the default are no longer valid.
+        if new_argument.required and not old_argument.required:
+            self.severity = SchemaChangeSeverity.BREAKING
 
 
 class DirectiveArgumentChangedType(SchemaChange):
@@ -358,6 +362,10 @@ class FieldArgumentDefaultValueChange(SchemaChange):
         self.field = field
         self.old_argument = old_argument
         self.new_argument = new_argument
+        # Losing its default makes a non-null position required: operations
+        # that relied on the default are no longer valid.
+        if new_argument.required and not old_argument.required:
+            self.severity = SchemaChangeSeverity.BREAKING
 
 
 class FieldArgumentChangedType(SchemaChange):
@@ -548,6 +556,10 @@ class InputFieldDefaultValueChange(SchemaChange):
         self.type = input_type
         self.old_field = old_field
         self.new_field = new_field
+        # Losing its default makes a non-null position required: operations
+        # that relied on the default are no longer valid.
+        if new_field.required and not old_field.required:
+            self.severity = SchemaChangeSeverity.BREAKING
 
 
 class InputFieldChangedType(SchemaChange):
